@@ -769,22 +769,6 @@ Proof.
     exact (IH s1 _ i r ty' tk' R' Hk Hu).
 Qed.
 
-Definition added_returned_stmt (zone : bool) : Prop :=
-  forall c t0 ops1 r ops2,
-  let s1 := state_after c t0 ops1 in
-  let i := next_id s1 in
-  mem (r_app r) (provs s1) = true ->
-  undisturbed zone c i r s1 (Add r :: ops2) ->
-  let s3 := state_after c t0 (ops1 ++ Add r :: ops2) in
-  let ct := content_after c i s1 (Add r :: ops2) (r_typ r, r_tok r) in
-  snd (step c s1 (Add r)) = [i] /\
-  lookup i (store s3) = Some (set_content r (fst ct) (snd ct)) /\
-  forall aid prio types,
-    mem aid (conss s3) = true -> forallb valid_type types = true -> prio_ok prio = true ->
-    mem (fst ct) types = true ->
-    exists recs, snd (step c s3 (Request aid prio types)) = 0 :: flat_map flat_rec recs /\
-                 In (set_content r (fst ct) (snd ct)) recs.
-
 Theorem added_is_returned_until_gone : added_returned_stmt true.
 Proof.
   intros c t0 ops1 r ops2 s1 i Hreg Hu s3 ct.
@@ -836,11 +820,6 @@ Proof.
 Qed.
 
 (* ---- unregistered update / delete are carried out (known finding KF-C12-2) --------------- *)
-Definition unregistered_refused_stmt (only_gated : bool) : Prop :=
-  forall c t0 ops o,
-  let s := state_after c t0 ops in
-  (only_gated = true -> gated o = true) -> by_unregistered s o = true -> fst (step c s o) = s.
-
 Theorem unregistered_refused_gated : unregistered_refused_stmt true.
 Proof.
   intros c t0 ops o s Hg Hu. now apply (unregistered_refused_partial c s o (Hg eq_refl) Hu).
